@@ -145,6 +145,10 @@ def handleText (st : DState) : List Sexp → Option (DState × Sexp)
         | none => .call "?unparsed" []
       some ({ st with subs := st.subs.filter (fun (n, _) => n != name) ++ [(name, sig)],
                       subBodies := st.subBodies.filter (fun (n, _) => n != name) ++ [(name, (ps.map (·.1), body))] }, rep.toSexp)
+  | [.atom "reads", .str x, n] => do
+      -- the texts of n successive reads of the shared node held by the C variable x (Model/Checks.lean: readsOf)
+      let n ← n.asNat?
+      some (st, .list (.atom "reads" :: (readsOf x n).map (fun t => .str t.render)))
   | [.atom "reset"] => some ({}, .atom "ok")
   | _ => none
 
